@@ -148,6 +148,8 @@ def gen_cases(ctx):
         cases.append(dict(c, kind="pkgparams"))
     for i in range(4 if ctx.tier == "quick" else 30):
         cases.append(dict(c07.gen_tree_case(rng, 1000 + i), kind="pkgtree"))
+    for c in c07.fixed_tree_cases():     # the deterministic trees: per-package parameters (recursive, exclude-subpkg-regex, selection) on the package
+        cases.append(dict(c, kind="pkgtree"))
     for i in range(24 if ctx.tier == "quick" else 200):
         cases.append(gen_recleak_case(rng, i))
     # the built-in template must honour per-mock template-data for mocks sharing a file, in either order
